@@ -1,6 +1,7 @@
 """C02 - an ID once assigned is never assigned again (lock-file invariant over histories)."""
 import json
 import os
+import time
 import re
 import shutil
 import signal
@@ -37,6 +38,9 @@ def gen_history(rnd, nact):
         # the project is near the top of the ID range (a lock written by an earlier life of the project): exhaustion is
         # reached within the history, with faults and kills around it
         acts.append(("seed_lock", core.U32MAX - rnd.randrange(0, 14)))
+    if rnd.random() < 0.08:
+        # Breadlog.lock is a symbolic link (a lock shared through a workspace directory)
+        acts.append(("lock_symlink",))
     acts += [("add", 0, 0.0, rnd.randrange(1 << 30)), ("add", 0, 0.5, rnd.randrange(1 << 30))]
     for _ in range(nact):
         r = rnd.random()
@@ -49,12 +53,19 @@ def gen_history(rnd, nact):
             acts.append(("del_stmt", "highest" if rnd.random() < 0.6 else "random", rnd.random()))
         elif r < 0.40:
             acts.append(("del_file", rnd.randrange(0, 4)))
-        elif r < 0.46:
+        elif r < 0.43:
             acts.append(("check",))
+        elif r < 0.46:
+            # the developer touches or edits the configuration file (it is now newer than the lock), or restores old timestamps
+            acts.append(("touch", rnd.choice(["config_newer", "config_newer", "sources_newer", "all_old", "lock_old"])))
         elif r < 0.62:
             acts.append(("edit", "normal", 0, None))
         elif r < 0.72:
             acts.append(("edit", "errno", rnd.random(), rnd.choice(["EIO", "ENOSPC", "EACCES", "EXDEV"])))
+        elif r < 0.73:
+            # stdout is a pipe whose reader has gone away (`breadlog | head`): the k-th log line fails with EPIPE and the
+            # process ends by a panic that unwinds - an abnormal end that is neither a kill nor a handled error
+            acts.append(("edit", "epipe", rnd.random(), None))
         elif r < 0.76:
             acts.append(("edit", "signal", rnd.random(), rnd.choice(["TERM", "INT"])))
         elif r < 0.80:
@@ -128,7 +139,20 @@ def run_history(built, acts, structured, record=False):
         for step, a in enumerate(acts):
             kind = a[0]
             note = None
-            if kind == "seed_lock":
+            if kind == "lock_symlink":
+                os.makedirs(os.path.join(w.box.proj, "shared"), exist_ok=True)
+                if not os.path.lexists(w.lockp):
+                    os.symlink(os.path.join("shared", "workspace.lock"), w.lockp)
+                stats["lock_symlink"] = 1
+            elif kind == "touch":
+                now = time.time()
+                tgt = {"config_newer": [(w.cfg, now + 5)], "lock_old": [(w.lockp, now - 86400)],
+                       "sources_newer": [(os.path.join(w.box.proj, rel), now + 5) for rel in w.files],
+                       "all_old": [(w.cfg, now - 9 * 86400), (w.lockp, now - 8 * 86400)] + [(os.path.join(w.box.proj, rel), now - 7 * 86400) for rel in w.files]}[a[1]]
+                for pth, t in tgt:
+                    if os.path.exists(pth):
+                        os.utime(pth, (t, t))
+            elif kind == "seed_lock":
                 with open(w.lockp, "w") as f:
                     f.write(core.lock_text(a[1]))
                 stats["near_top"] = 1
@@ -195,8 +219,8 @@ def run_history(built, acts, structured, record=False):
                 if how != "normal":
                     # measure this run's operations on a scratch copy, then address op k by fraction (biased to the insertion pass)
                     with core.Box(tag="c02k") as sb:
-                        shutil.copytree(w.box.proj, sb.proj, dirs_exist_ok=True)
-                        r0 = core.run_breadlog(built, sb, os.path.join(sb.proj, "Breadlog.yaml"), shim=True)
+                        shutil.copytree(w.box.proj, sb.proj, dirs_exist_ok=True, symlinks=True)
+                        r0 = core.run_breadlog(built, sb, os.path.join(sb.proj, "Breadlog.yaml"), shim=True, stdio_ops=(how == "epipe"))
                         ops0 = r0.shim or []
                     K = len(ops0)
                     firstw = next((o["n"] for o in ops0 if o["kind"] == "openw"), 1)
@@ -207,6 +231,10 @@ def run_history(built, acts, structured, record=False):
                         cand = [o["n"] for o in ops0 if o["n"] >= k and o["kind"] in ("openw", "write", "rename")]
                         k = cand[0] if cand else k
                         rules = "n=%d,act=errno:%d" % (k, fault.ERRNO[arg])
+                    elif how == "epipe":
+                        cand = [o["n"] for o in ops0 if o["n"] >= k and o["kind"] == "stdio"] or [o["n"] for o in ops0 if o["kind"] == "stdio"][-1:]
+                        k = cand[0] if cand else k
+                        rules = "n=%d,kind=stdio,act=errno:%d" % (k, fault.ERRNO["EPIPE"])
                     elif how == "short":
                         rules = "from=%d,kind=write,act=short" % k
                     elif how == "signal":
@@ -214,7 +242,7 @@ def run_history(built, acts, structured, record=False):
                     else:
                         rules = "n=%d,act=%s" % (k, how)
                 before_pairs = set(w.scan())
-                rec = core.run_breadlog(built, w.box, w.cfg, rules=rules, shim=True)
+                rec = core.run_breadlog(built, w.box, w.cfg, rules=rules, shim=True, stdio_ops=(how == "epipe"))
                 stats["runs"] += 1
                 fired = [o for o in (rec.shim or []) if o["fired"]]
                 # temp dir is cleaned between runs (leftovers of a killed run are not this property's business)
@@ -304,6 +332,7 @@ def work(job):
     res["counters"]["histories_with_delete_highest_then_insert"] = int(stats["del_highest_then_insert"] > 0)
     res["counters"]["max_ghost_size"] = 0
     res["counters"]["histories_near_top_of_id_range"] = stats.get("near_top", 0)
+    res["counters"]["histories_with_symlinked_lock"] = stats.get("lock_symlink", 0)
     for k, n in stats["abnormal"].items():
         res["counters"]["abnormal_end_fired_" + k] = n
     if stats["del_highest_then_insert"] or stats["abnormal"]:
